@@ -24,7 +24,27 @@ def tree_term(pools):
     return '[%s]' % ';\n   '.join(items), idx
 
 
-def obs_term(ta, idx, cidx):
+def shares_of(milli):
+    return 2 if milli == 0 else max(2, min(262144, milli * 1024 // 1000))
+
+
+def told_items(rec, cfg, cidx):
+    """granted live containers whose cache cpuset/shares the model must predict"""
+    from fsoracle import parse_set
+    out = []
+    if not cfg.get('pinCPU', False):
+        return out
+    grants = {g['id']: g for g in (rec['ta']['grants'] or [])}
+    for c in rec['cache']:
+        g = grants.get(c['id'])
+        pr = c.get('prefs')
+        if not g or not pr or c['state'] not in ('created', 'running') or g['cputype'] == 'preserve' or pr.get('hide_ht') or c.get('preserve_cpu'):
+            continue
+        out.append('{| ot_cid := %d; ot_cpus := %s; ot_shares := %s |}' % (cidx(c['id']), nlist(sorted(parse_set(c['cpus']))), zlit(c['shares'])))
+    return out
+
+
+def obs_term(ta, idx, cidx, told=()):
     ps = []
     for p in ta['pools']:
         ps.append('{| o_free_iso := %s; o_free_shar := %s; o_gr_shared := %s; o_gr_reserved := %s; o_alloc_shared := %s; o_alloc_reserved := %s |}' % (
@@ -33,7 +53,7 @@ def obs_term(ta, idx, cidx):
     for g in (ta['grants'] or []):
         gs.append('{| og_cid := %d; og_pool := %d; og_excl := %s; og_type := %s; og_portion := %s |}' % (
             cidx(g['id']), idx[g['pool']], nlist(g['exclusive']), TYPES[g['cputype']], zlit(g['portion'])))
-    return '{| ob_pools := [%s]; ob_grants := [%s] |}' % ('; '.join(ps), '; '.join(gs))
+    return '{| ob_pools := [%s]; ob_grants := [%s]; ob_told := [%s] |}' % ('; '.join(ps), '; '.join(gs), '; '.join(told))
 
 
 def grant_term(g, idx):
@@ -44,7 +64,7 @@ def same_grant(a, b):
     return a['pool'] == b['pool'] and a['exclusive'] == b['exclusive'] and a['cputype'] == b['cputype'] and a['portion'] == b['portion']
 
 
-def trace_terms(recs):
+def trace_terms(recs, cfgs=None):
     """recs: records of one script (Setup first). Returns (coq term of the segments, stats)."""
     cids = {}
     def cidx(c):
@@ -55,7 +75,7 @@ def trace_terms(recs):
     stats = dict(allocs=0, excl_allocs=0, releases=0, reserves=0, segments=0, skipped=0)
     def pools_sig(ta):
         return [(p['name'], p['parent'], p['iso'], p['res'], p['shar']) for p in ta['pools']]
-    for rec in recs:
+    for ri, rec in enumerate(recs):
         ta = rec.get('ta')
         if not ta:
             stats['skipped'] += 1
@@ -102,7 +122,9 @@ def trace_terms(recs):
                 stats['allocs'] += 1
                 if g['exclusive']:
                     stats['excl_allocs'] += 1
-        cur['groups'].append('([%s], %s)' % ('; '.join(ops), obs_term(ta, idx, cidx)))
+        told = told_items(rec, cfgs[ri], cidx) if cfgs else []
+        stats['told_checked'] = stats.get('told_checked', 0) + len(told)
+        cur['groups'].append('([%s], %s)' % ('; '.join(ops), obs_term(ta, idx, cidx, told)))
         prev = rec
     term = '[%s]' % ';\n'.join('(%s,\n  [%s])' % (s['tree'], ';\n   '.join(s['groups'])) for s in segs)
     return term, stats
@@ -111,15 +133,46 @@ def trace_terms(recs):
 HDR = 'From Coq Require Import ZArith List. Import ListNotations.\nFrom stdpp Require Import gmap.\nFrom NV Require Import TA_Model.\nOpen Scope nat_scope.\n'
 
 
-def case_file(path, traces):
+QOS = {'Guaranteed': 'Guaranteed', 'Burstable': 'Burstable', 'BestEffort': 'BestEffort'}
+KIND = {0: 'PrefImplicit', 1: 'PrefConfig', 2: 'PrefAnnotated'}
+
+
+def prefs_cases(recs):
+    """(inputs, output) of cpuAllocationPreferences for every live container in every snapshot (deduplicated)"""
+    seen, out = set(), []
+    b = lambda x: 'true' if x else 'false'
+    for rec in recs:
+        for c in rec['cache']:
+            pr = c.get('prefs')
+            if not pr or pr.get('in_qos') not in QOS:
+                continue
+            key = (pr['in_qos'], pr['in_milli'], pr['in_preserve'], pr['in_prefer_reserved'], pr['in_explicit_reservation'], pr['in_ns_reserved'],
+                   pr['in_isolated'], pr['in_isolated_kind'], pr['in_shared'], pr['in_shared_kind'], pr['full'], pr['fraction'], pr['isolate'], pr['cputype'])
+            if key in seen:
+                continue
+            seen.add(key)
+            out.append('({| pi_qos := %s; pi_milli := %s; pi_preserve := %s; pi_prefer_reserved := %s; pi_explicit_reservation := %s; pi_ns_reserved := %s; '
+                       'pi_isolated := %s; pi_isolated_kind := %s; pi_shared := %s; pi_shared_kind := %s |}, '
+                       '{| r_full := %s; r_fraction := %s; r_isolate := %s; r_type := %s |})' % (
+                           QOS[pr['in_qos']], zlit(pr['in_milli']), b(pr['in_preserve']), b(pr['in_prefer_reserved']), b(pr['in_explicit_reservation']), b(pr['in_ns_reserved']),
+                           b(pr['in_isolated']), KIND[pr['in_isolated_kind']], b(pr['in_shared']), KIND[pr['in_shared_kind']],
+                           zlit(pr['full']), zlit(pr['fraction']), b(pr['isolate']), TYPES[pr['cputype']]))
+    return out, seen
+
+
+def case_file(path, traces, cfgs=None, guards=False):
     """traces: list of (name, recs). Writes a .v file printing one result line per trace."""
     allstats = {}
     with open(path, 'w') as f:
         f.write(HDR)
         for k, (name, recs) in enumerate(traces):
-            term, st = trace_terms(recs)
+            term, st = trace_terms(recs, cfgs.get(name) if cfgs else None)
             allstats[name] = st
             f.write('Definition T%d : list (tree * list (list op * obs)) := %s.\n' % (k, term))
             f.write('Definition R%d := Eval vm_compute in check_segments 0 T%d.\n' % (k, k))
+            if guards:
+                f.write('Definition G%d := Eval vm_compute in guard_segments 0 T%d.\n' % (k, k))
         f.write('Definition M := Eval vm_compute in [%s].\nPrint M.\n' % '; '.join('R%d' % k for k in range(len(traces))))
+        if guards:
+            f.write('Definition GG := Eval vm_compute in [%s].\nPrint GG.\n' % '; '.join('G%d' % k for k in range(len(traces))))
     return allstats
